@@ -79,34 +79,75 @@ def cmd_verify(src, name):
                 json.dump(meta, f, indent=1)
 
 
-def cmd_run(sid, props):
+def cmd_run(sid, props, scratch=False):
+    """scratch=True: apply in a scratch worktree and point the checks at it with VERIF_REPO, so /repo stays
+    untouched and several seeded changes (of different properties) can run side by side"""
     d = os.path.join(VERIF, 'seeded', sid)
     meta = json.load(open(os.path.join(d, 'meta.json')))
     props = props or [meta['property']]
-    rc, out = sh('git -C /repo status --porcelain')
-    assert out.strip() == '', '/repo not clean: ' + out
-    rc, out = sh('git -C /repo apply %s' % os.path.join(d, 'patch.diff'))
-    assert rc == 0, out
+    if scratch:
+        repo = '/tmp/mutrun_%s' % sid
+        sh('git -C /repo worktree remove --force %s' % repo)
+        rc, out = sh('git -C /repo worktree add -q --detach %s HEAD' % repo)
+        assert rc == 0, out
+        env = dict(os.environ, VERIF_REPO=repo)
+    else:
+        repo = '/repo'
+        env = dict(os.environ)
+        rc, out = sh('git -C /repo status --porcelain')
+        assert out.strip() == '', '/repo not clean: ' + out
+    rc, out = sh('git -C %s apply %s' % (repo, os.path.join(d, 'patch.diff')))
+    if rc != 0:
+        rc, out = sh('git -C %s apply -3 %s' % (repo, os.path.join(d, 'patch.diff')))
     try:
+        assert rc == 0, out
         for p in props:
             t0 = time.time()
-            rc, out = sh('./check %s --tier quick' % p, cwd=VERIF)
+            rc, out = sh('./check %s --tier quick' % p, cwd=VERIF, env=env)
             viol = [l for l in out.splitlines() if l.startswith('VIOLATION')]
             meta['checks'][p] = {'rc': rc, 'violations': len(viol), 'first': viol[0][:300] if viol else None,
                                  'wall_s': round(time.time() - t0, 1)}
-            print(sid, p, 'rc=%d' % rc, 'violations=%d' % len(viol), (viol[0][:200] if viol else out.strip().splitlines()[-1][:200]))
+            print(sid, p, 'rc=%d' % rc, 'violations=%d' % len(viol),
+                  (viol[0][:200] if viol else out.strip().splitlines()[-1][:200]), flush=True)
     finally:
-        sh('git -C /repo checkout -- .')
-        rc, out = sh('git -C /repo status --porcelain')
-        assert out.strip() == '', out
-    # evidence/replays written during a mutant run are not evidence of the real tree
-    sh('git -C %s checkout -- evidence 2>/dev/null; git -C %s clean -fdq replays' % (VERIF, VERIF))
+        if scratch:
+            sh('git -C /repo worktree remove --force %s' % repo)
+        else:
+            sh('git -C /repo checkout -- .')
+            rc, out = sh('git -C /repo status --porcelain')
+            assert out.strip() == '', out
+    if not scratch:
+        # evidence/replays written during a mutant run are not evidence of the real tree
+        sh('git -C %s checkout -- evidence 2>/dev/null; git -C %s clean -fdq replays' % (VERIF, VERIF))
     with open(os.path.join(d, 'meta.json'), 'w') as f:
         json.dump(meta, f, indent=1)
+
+
+def cmd_runall(pattern):
+    """every seeded/<id> whose id matches the regex, properties side by side (4 at a time), the changes of one
+    property one after the other; evidence and replays are restored at the end"""
+    import re
+    from concurrent.futures import ThreadPoolExecutor
+    ids = sorted(x for x in os.listdir(os.path.join(VERIF, 'seeded')) if re.search(pattern, x))
+    groups = {}
+    for i in ids:
+        groups.setdefault(i.split('-')[0].rstrip('b'), []).append(i)
+
+    def work(g):
+        for sid in g:
+            try:
+                cmd_run(sid, [], scratch=True)
+            except Exception as e:  # noqa
+                print(sid, 'ERROR', repr(e)[:300], flush=True)
+    with ThreadPoolExecutor(4) as ex:
+        list(ex.map(work, groups.values()))
+    sh('git -C %s checkout -- evidence 2>/dev/null; git -C %s clean -fdq replays' % (VERIF, VERIF))
 
 
 if __name__ == '__main__':
     if sys.argv[1] == 'verify':
         cmd_verify(sys.argv[2], sys.argv[3])
+    elif sys.argv[1] == 'runall':
+        cmd_runall(sys.argv[2])
     else:
         cmd_run(sys.argv[2], sys.argv[3:])
